@@ -141,7 +141,38 @@ def gen_case(rng):
     return {"source": DL.gen_source(rng, allow_generated=True), "cycles": cycles}
 
 
+def first_documents_of_the_process(ctx, res):
+    """The first documents this process creates from each built-in template: what is done to one of them
+    (a file added, a part deleted, not saved) must not show in the next one of the same type."""
+    import io
+
+    from odfdo import Document
+
+    kinds = ["text", "spreadsheet", "presentation", "drawing"]
+    for kind in kinds[ctx.shard % 4 :] + kinds[: ctx.shard % 4]:
+        first = Document(kind)
+        uri = first.add_file(io.BytesIO(DL.PNG + b"first-of-process-" + kind.encode()))
+        victim = next((p for p in first.get_parts() if p.startswith("Thumbnails/") or p.endswith("current.xml")), None)
+        if victim and ctx.shard % 2:
+            first.del_part(victim)
+        for n in (2, 3):
+            other = Document(kind)
+            buf = io.BytesIO()
+            other.save(buf)
+            pkg = DL.Package(buf.getvalue())
+            res.judge()
+            res.cls(("first-documents-of-the-process", kind, f"document{n}"), True)
+            bad = DL.package_rules(pkg, expect_mimetype=other.mimetype)
+            if uri in pkg.files:
+                bad.append(("file-added-to-another-document-of-the-process", {"uri": uri}))
+            for m, d in bad:
+                res.violation(f"package:{m}", dict(d, kind=kind, scenario="first-documents-of-the-process"), {"scenario": "first-documents", "kind": kind})
+            if bad:
+                break
+
+
 def run(ctx, res):
+    first_documents_of_the_process(ctx, res)
     base = [{"kind": "template", "name": t} for t in DL.TEMPLATES] + [{"kind": "sample", "name": s} for s in DL.sample_files()]
     for i, src in enumerate(base):
         if not ctx.mine(i):
@@ -165,6 +196,15 @@ def run(ctx, res):
 
 
 def replay(case):
+    if case.get("scenario") == "first-documents":
+        from ..core import Res
+
+        class _C:
+            shard = 0
+
+        r = Res()
+        first_documents_of_the_process(_C, r)
+        return r.violations
     v = run_case(case["case"], None)
     return [{"mechanism": m, "detail": d} for m, d in (v or [])]
 
